@@ -20,7 +20,9 @@ def check(run):
     for sd in seeds:
         for op in ("keygen_seeded", "keygen_ext_seeded", "rln seeded_key_gen", "rln seeded_ext_key_gen", "ffi_seeded_key_gen", "ffi_seeded_ext_key_gen"):
             seqs.append([f"{op} {hx(sd)}"])
-    run.rules.append("seeds: empty, one byte, the two documented reference seeds, block-boundary lengths 135/136/137/272, random lengths (thorough: 10 kB), each through protocol::*, RLN::* and ffi::*; the model recomputes Keccak-256 -> ChaCha20 -> Fr::rand -> Poseidon byte for byte; distinct = distinct (entry point, seed)")
+    run.rules.append("seeds: empty, one byte, the two documented reference seeds, block-boundary lengths 135/136/137/272, random lengths (thorough: 10 kB), each through protocol::*, RLN::* and ffi::*; the model recomputes Keccak-256 -> ChaCha20 -> Fr::rand -> Poseidon byte for byte; unseeded generation after seeded generation, replayed within and across processes, must never repeat; distinct = distinct (entry point, seed)")
+    from lib import gen as _gen
+    seqs = seqs + _gen.neighbours(seqs, run.rng, 20 if run.tier == "quick" else 200)      # purity across calls: L, near-duplicate of L, L again
     run.differential("seeded-keygen", seqs, shrink=False)
     # documented reference identities (rln/tests/protocol.rs)
     ref = core.run_impl(zkh, [f"keygen_seeded {bytes(range(10)).hex()}", f"keygen_seeded {b'A seed phrase example'.hex()}"])
@@ -59,6 +61,22 @@ def check(run):
                            "detail": f"commitment relation fails: H({[hex(x) for x in inp]}) = {hex(sg)} but the identity carries {hex(want)}"})
     if len(set(ids)) != len(ids):
         run.violation({"property": run.pid, "kind": "impl-vs-spec", "stream": "unseeded", "ops": ["keygen"], "detail": "two unseeded calls returned the same identity"})
+    # unseeded identities must stay fresh whatever was generated before: the same history (seeded calls interleaved with
+    # unseeded ones, every entry point) replayed twice in one process and once more in another process — no unseeded output may
+    # repeat anywhere (a generator re-keyed by a seeded call would make them a function of the seed)
+    sd = bytes(range(10)).hex()
+    hist = []
+    for a, b in [("keygen_seeded", "keygen"), ("keygen_ext_seeded", "keygen_ext"), ("rln seeded_key_gen", "rln key_gen"),
+                 ("rln seeded_ext_key_gen", "rln ext_key_gen"), ("ffi_seeded_key_gen", "ffi_key_gen"), ("ffi_seeded_ext_key_gen", "ffi_ext_key_gen"),
+                 ("keygen_seeded", "rln key_gen"), ("rln seeded_key_gen", "keygen_ext")]:
+        hist += [f"{a} {sd}", b, b]
+    runs = [core.run_impl(zkh, hist + hist), core.run_impl(zkh, hist)]
+    fresh = [o for r in runs for l, o in zip((hist + hist), r) if " " not in l.replace("rln ", "rln_")]
+    run.cov["unseeded_after_seeded_checked"] = len(fresh)
+    if len(set(fresh)) != len(fresh) or any(o.startswith(("err", "panic", "abort")) for o in fresh):
+        dup = next((o for o in fresh if fresh.count(o) > 1), fresh[0] if fresh else "")
+        run.violation({"property": run.pid, "kind": "impl-vs-spec", "stream": "unseeded-after-seeded", "ops": hist,
+                       "detail": "an unseeded identity repeats after seeded generations (same history replayed in one process and in a second process): " + dup[:140]})
     run.cov["unseeded_identities_checked"] = len(ids)
     run.cov["evaluations"] += len(ids)
     # distinct seeds -> distinct identities (sampled)
